@@ -52,7 +52,7 @@ func (aux *Aux) Call(gf slip.Object, s *slip.Scope, args slip.List, depth int) s
 	// All calls must match the gf-lambda-list so check here as much as
 	// reasonable.
 	if len(args) < aux.reqCnt {
-		slip.ErrorPanic(s, depth, "generic-function %s requires at least %d arguments. Received %d.",
+		slip.ErrorPanic(s, depth, "Too few arguments to %s. At least %d expected but got %d.",
 			aux.docs.Name, aux.reqCnt, len(args))
 	}
 	aux.moo.Lock()
